@@ -417,7 +417,7 @@ class MinErrorFlow():
 
                 # Getting all the different 'flow_attr' values in the corrected graph
                 ub_different_flow_values = len(set(
-                    corrected_graph[u][v].get(self.flow_attr, 0)
+                    self.edge_sol.get((u, v), 0)   # the internal values: the corrected graph is condensed for node-weighted input
                     for (u, v) in edge_subset
                 ))
 
